@@ -187,3 +187,156 @@ static unsigned long long tree_size(size_t a, size_t L) { unsigned long long s =
     src.append("  return 0;")
     src.append("}")
     return "\n".join(src)
+
+
+# ------------------------------------------------------------------------------------------------
+# Replay driver: executes behaviours (mem / wr / eq / cp commands) and records what the views did.
+# ------------------------------------------------------------------------------------------------
+
+def write_targets(prog, tn, depth=2):
+    """Writable paths of struct tn: [{"path": [...], "st", "w", "extra": [...], "cast": "int"|"flag"|"enum"|"virt"}]."""
+    j = prog.to_json() if isinstance(prog, vp.Program) else prog
+    out = []
+
+    def consts(e, acc):
+        if isinstance(e, dict):
+            if e.get("k") in ("int", "enum"):
+                acc.append(e["v"])
+            for v in e.values():
+                consts(v, acc)
+        elif isinstance(e, list):
+            for v in e:
+                consts(v, acc)
+
+    def walk(t, prefix, d):
+        T = j["types"][t]
+        for f in T["fields"]:
+            if f["kind"] == "scalar":
+                ex = []
+                consts(f.get("requires", []), ex)
+                extra = sorted({v + k for v in ex for k in (-1, 0, 1)})
+                cast = "flag" if f["st"] == "Flag" else ("enum" if f["st"].startswith("Enum") else "int")
+                out.append({"path": prefix + [f["name"]], "st": f["st"], "w": f["w"], "extra": extra, "cast": cast})
+            elif f["kind"] == "virt":
+                if f["alias"]:
+                    tgt = resolve_alias(j, t, f["alias"])
+                    if tgt["kind"] == "scalar":
+                        ex = []
+                        consts(tgt.get("requires", []), ex)
+                        cast = "flag" if tgt["st"] == "Flag" else ("enum" if tgt["st"].startswith("Enum") else "int")
+                        out.append({"path": prefix + [f["name"]], "st": tgt["st"], "w": tgt["w"], "cast": cast,
+                                    "extra": sorted({v + k for v in ex for k in (-1, 0, 1)})})
+                elif f.get("xform"):
+                    x = f["xform"][0]
+                    tgt = resolve_alias(j, t, x["dest"])
+                    if tgt["kind"] != "scalar":
+                        continue
+                    lo, hi = (-(1 << (tgt["w"] - 1)), (1 << (tgt["w"] - 1)) - 1) if tgt["st"] in ("Int", "EnumS") else (0, (1 << tgt["w"]) - 1)
+                    ex = []
+                    consts(f.get("requires", []), ex)
+                    c = x["c"]
+                    if x["op"] == "y+c":
+                        edge = [lo + c - 1, lo + c, hi + c, hi + c + 1, c]
+                    elif x["op"] == "y-c":
+                        edge = [lo - c - 1, lo - c, hi - c, hi - c + 1, -c]
+                    else:
+                        edge = [c - hi - 1, c - hi, c - lo, c - lo + 1, c]
+                    out.append({"path": prefix + [f["name"]], "st": "Int", "w": min(24, tgt["w"] + 2), "cast": "virt",
+                                "extra": sorted(set(edge + [v + k for v in ex for k in (-1, 0, 1)]))})
+            elif f["kind"] == "sub" and d > 0 and not f.get("anon"):
+                walk(f["type"], prefix + [f["name"]], d - 1)
+    walk(tn, [], depth)
+    return out
+
+
+def gen_replay_driver(prog, header, structs, with_equals=True):
+    """structs: [{"t": name, "targets": write_targets(...)}]; struct index in the command file = position."""
+    j = prog.to_json() if isinstance(prog, vp.Program) else prog
+    ns = ns_of(j)
+    src = [PRELUDE.replace("HEADER", header), gen_obs_functions(j)]
+    src.append(r'''
+struct Reader {
+  FILE *f; char tok[64];
+  bool next() { return std::fscanf(f, "%63s", tok) == 1; }
+  long long num() { long long v = 0; if (std::fscanf(f, "%lld", &v) != 1) std::exit(4); return v; }
+};
+static void print_bytes(FILE *f, const unsigned char *p, size_t n) {
+  std::fputc('[', f); for (size_t i = 0; i < n; ++i) std::fprintf(f, "%s%d", i ? "," : "", (int)p[i]); std::fputc(']', f);
+}
+''')
+    for si, S in enumerate(structs):
+        tn = S["t"]
+        T = j["types"][tn]
+        # writer
+        src.append("template <class V> static void write_%d(V v, int wid, long long x, int &could, int &tried) {" % si)
+        src.append("  switch (wid) {")
+        for k, tg in enumerate(S["targets"]):
+            acc = "v" + "".join(".%s()" % p for p in tg["path"])
+            if tg["cast"] == "flag":
+                val = "(x != 0)"
+            elif tg["cast"] == "enum":
+                val = "static_cast<decltype(fv.Read())>(x)"
+            else:
+                val = "x"
+            src.append("    case %d: { auto fv = %s; could = fv.CouldWriteValue(%s); tried = fv.TryToWrite(%s); break; }" % (k, acc, val, val))
+        src.append("    default: std::exit(5);")
+        src.append("  }")
+        src.append("}")
+        paths = "{" + ", ".join('"%s"' % json.dumps(tg["path"]).replace('"', '\\"') for tg in S["targets"]) + "}"
+        npar = len(T["params"])
+        pargs = "".join("static_cast<%s>(ps[%d]), " % (_cpp_int(p), i) for i, p in enumerate(T["params"]))
+        src.append("static void trace_%d(Reader &in, FILE *f, const std::vector<long long> &ps, bool &have_tok) {" % si)
+        src.append("  static const char *paths[] = %s;" % (paths if S["targets"] else '{""}'))
+        src.append("  unsigned char *mem = nullptr; size_t n = 0; size_t wo[3] = {0,0,0}, wl[3] = {0,0,0}; bool firstev = true;")
+        src.append('  std::fprintf(f, "{\\"t\\":\\"%s\\",\\"ps\\":[");' % tn)
+        src.append('  for (size_t i = 0; i < ps.size(); ++i) std::fprintf(f, "%s%lld", i ? "," : "", ps[i]);')
+        src.append('  std::fprintf(f, "],\\"ev\\":[");')
+        src.append("  while ((have_tok = in.next())) {")
+        src.append("    const char c = in.tok[0];")
+        src.append("    if (c == 'T') break;")
+        src.append('    std::fprintf(f, "%s", firstev ? "" : ","); firstev = false;')
+        src.append("    #define VIEW(k) %s::Make%sView(%smem + wo[k], wl[k])" % (ns, tn, pargs))
+        src.append("    if (c == 'M') {")
+        src.append("      std::free(mem); n = (size_t)in.num(); mem = static_cast<unsigned char *>(std::malloc(n ? n : 1));")
+        src.append("      for (size_t i = 0; i < n; ++i) mem[i] = (unsigned char)in.num();")
+        src.append("      wo[1] = in.num(); wl[1] = in.num(); wo[2] = in.num(); wl[2] = in.num();")
+        src.append('      std::fprintf(f, "{\\"e\\":\\"mem\\",\\"bytes\\":"); print_bytes(f, mem, n);')
+        src.append('      std::fprintf(f, ",\\"a\\":[%zu,%zu],\\"b\\":[%zu,%zu],\\"o\\":[", wo[1], wl[1], wo[2], wl[2]);')
+        src.append('      { Out o{f, true}; %s(VIEW(1), "", o); } std::fprintf(f, "]}");' % _obs_fn_name(tn))
+        src.append("    } else if (c == 'W') {")
+        src.append("      int win = (int)in.num(); int wid = (int)in.num(); long long x = in.num(); int could = 0, tried = 0;")
+        src.append("      write_%d(VIEW(win), wid, x, could, tried);" % si)
+        src.append('      std::fprintf(f, "{\\"e\\":\\"wr\\",\\"win\\":%d,\\"path\\":%s,\\"x\\":%lld,\\"could\\":%d,\\"tried\\":%d,\\"after\\":", win, paths[wid], x, could, tried);')
+        src.append('      print_bytes(f, mem, n); std::fprintf(f, ",\\"o\\":[");')
+        src.append('      { Out o{f, true}; %s(VIEW(win), "", o); } std::fprintf(f, "]}");' % _obs_fn_name(tn))
+        src.append("    } else if (c == 'E') {")
+        src.append("      auto va = VIEW(1); auto vb = VIEW(2); int skipped = !(va.Ok() && vb.Ok()); int ab = 0, ba = 0;")
+        if with_equals:
+            src.append("      if (!skipped) { ab = va.Equals(vb); ba = vb.Equals(va); }")
+        else:
+            src.append("      skipped = 2;  // Equals does not compile for this structure")
+        src.append('      std::fprintf(f, "{\\"e\\":\\"eq\\",\\"skipped\\":%d,\\"ab\\":%d,\\"ba\\":%d}", skipped, ab, ba);')
+        src.append("    } else if (c == 'C') {")
+        src.append("      int dst = (int)in.num(); int ok = VIEW(dst).TryToCopyFrom(VIEW(3 - dst));")
+        src.append('      std::fprintf(f, "{\\"e\\":\\"cp\\",\\"dst\\":%d,\\"ok\\":%d,\\"after\\":", dst, ok); print_bytes(f, mem, n);')
+        src.append('      std::fprintf(f, ",\\"o\\":["); { Out o{f, true}; %s(VIEW(dst), "", o); } std::fprintf(f, "]}");' % _obs_fn_name(tn))
+        src.append("    } else { std::exit(6); }")
+        src.append("    #undef VIEW")
+        src.append("  }")
+        src.append('  std::fprintf(f, "]}\\n"); std::free(mem);')
+        src.append("}")
+    src.append("int main(int argc, char **argv) {")
+    src.append('  if (argc < 3) return 2; Reader in; in.f = std::fopen(argv[1], "r"); FILE *f = std::fopen(argv[2], "w"); if (!in.f || !f) return 3;')
+    src.append("  bool have = in.next();")
+    src.append("  while (have) {")
+    src.append("    if (in.tok[0] != 'T') return 7;")
+    src.append("    int si = (int)in.num(); int np = (int)in.num(); std::vector<long long> ps; for (int i = 0; i < np; ++i) ps.push_back(in.num());")
+    src.append("    switch (si) {")
+    for si in range(len(structs)):
+        src.append("      case %d: trace_%d(in, f, ps, have); break;" % (si, si))
+    src.append("      default: return 8;")
+    src.append("    }")
+    src.append("  }")
+    src.append("  std::fclose(f); return 0;")
+    src.append("}")
+    return "\n".join(src)
